@@ -19,9 +19,10 @@ func init() {
 			{Name: "hello-skip-relays", File: "comm.go", Old: "\tfor t := range p.myRelays {\n\t\tsubscriptions[t] = true\n\t}", New: "\tfor t := range p.myRelays {\n\t\tif len(p.mySubs) > 0 {\n\t\t\tbreak\n\t\t}\n\t\tsubscriptions[t] = true\n\t}", Expect: "R01.4"},
 		}})
 	register(&Property{ID: "C02", Run: runC02,
-		Explain: "Structural necessary conditions of C02: every path to a user validator or to local delivery passes a test-and-set of the seen cache that returned fresh, and that test-and-set is atomic. (R02.1) in validation.validate the fresh edge of markSeen dominates every validator invocation, the async hand-off and onValid; validator entry points are referenced only inside that region; (R02.2) delivery ownership chain notifySubs <- publishMessage(+Batch) <- pushMsg(after markSeen fresh)/sendMsg arm; sends on sendMsg only in sendMsgBlocking, referenced only by the validation worker and Topic.Publish after a nil error from the local validation chain; (R02.3) each TimeCache.Add/Has accesses the map under its lock (exclusive for writes) and Add returns fresh only on the key-absent edge; (R02.4) entries are deleted only by sweep under expiry.Before(now) and stored only as now+ttl; (R02.6) strategy semantics: the first-seen cache sets an expiry only on the key-absent edge, the last-seen cache refreshes it on every Add and on every Has of a known ID; (R02.5) the memoised message ID is accessed under the generator's mutex. NOT decided: TTL arithmetic over time, injectivity of message-ID functions.",
+		Explain: "Structural necessary conditions of C02: every path to a user validator or to local delivery passes a test-and-set of the seen cache that returned fresh, and that test-and-set is atomic. (R02.1) in validation.validate the fresh edge of markSeen dominates every validator invocation, the async hand-off and onValid; validator entry points are referenced only inside that region; (R02.2) delivery ownership chain notifySubs <- publishMessage(+Batch) <- pushMsg(after markSeen fresh)/sendMsg arm; sends on sendMsg only in sendMsgBlocking, referenced only by the validation worker and Topic.Publish after a nil error from the local validation chain; (R02.3) each TimeCache.Add/Has accesses the map under its lock (exclusive for writes) and Add returns fresh only on the key-absent edge; (R02.4) entries are deleted only by sweep under expiry.Before(now) and stored only as now+ttl; (R02.6) strategy semantics: the first-seen cache sets an expiry only on the key-absent edge, the last-seen cache refreshes it on every Add and on every Has of a known ID; (R02.5) the memoised message ID is accessed under the generator's mutex. (R02.7) the instance's message-ID generator is created once by the constructor and never replaced (options configure it in place); R01.5 (batch ownership) is re-evaluated here. NOT decided: TTL arithmetic over time, injectivity of message-ID functions.",
 		Assume:  []string{"sync.Mutex/RWMutex semantics", "time.Now().Add(ttl) is the only expiry constructor (checked syntactically)"},
 		Mutants: []Mutant{
+			{Name: "idfn-option-replaces-generator", File: "pubsub.go", Old: "\t\tp.idGen.Default = fn\n", New: "\t\tp.idGen = newMsgIdGenerator()\n\t\tp.idGen.Default = fn\n", Expect: "R02.7"},
 			{Name: "validate-ignore-markSeen", File: "validation.go", Old: "\tif !v.p.markSeen(id) {\n\t\tv.tracer.DuplicateMessage(msg)\n\t\treturn dupeErr{}\n\t} else {", New: "\tif !v.p.markSeen(id) && !synchronous {\n\t\tv.tracer.DuplicateMessage(msg)\n\t\treturn dupeErr{}\n\t} else {", Expect: "R02.1"},
 			{Name: "pushMsg-no-markSeen", File: "pubsub.go", Old: "\tif p.markSeen(id) {\n\t\tp.publishMessage(msg)\n\t}", New: "\tif p.markSeen(id) || msg.Local {\n\t\tp.publishMessage(msg)\n\t}", Expect: "R02.2"},
 			{Name: "firstseen-add-rlock", File: "timecache/first_seen_cache.go", Old: "func (tc *FirstSeenCache) Add(s string) bool {\n\ttc.lk.Lock()\n\tdefer tc.lk.Unlock()", New: "func (tc *FirstSeenCache) Add(s string) bool {\n\ttc.lk.RLock()\n\tdefer tc.lk.RUnlock()", Expect: "R02.3"},
@@ -77,7 +78,7 @@ func runC01(c *RuleCtx) {
 		c.Check(ok2, "R01.1", f.Name, "rt.Publish on every non-local path", f.Decl, d, d)
 	}
 	if f := c.MustFn("R01.1", fnPublishBatch); f != nil {
-		rs := p.RangesOver(f, func(v *V) bool { return v.IsField("messageBatchAndPublishOptions.messages") })
+		rs := p.LoopsOver(f, func(v *V) bool { return v.IsField("messageBatchAndPublishOptions.messages") })
 		if len(rs) == 0 {
 			c.Undecided("R01.1", f.Name, "range over batch messages", f.Decl, "no range over the batch's messages found")
 		}
@@ -91,7 +92,12 @@ func runC01(c *RuleCtx) {
 				continue
 			}
 			g := p.Graph(f)
-			okr, _ := g.MustPass(g.Entry(), PassOpts{}, func(n ast.Node) bool { return n == ast.Node(r.X) })
+			// the loop (range or index form) is entered on every path: its first evaluated part is a must-pass node
+			var first ast.Node
+			if pt, located := g.Locate(r); located && pt.I < len(pt.B.Nodes) {
+				first = pt.B.Nodes[pt.I]
+			}
+			okr, _ := g.MustPass(g.Entry(), PassOpts{}, func(n ast.Node) bool { return first != nil && n == first })
 			if okr {
 				good, why, site = true, w+"; the loop is on every path from entry", r
 			} else {
@@ -737,9 +743,53 @@ func runC02(c *RuleCtx) {
 			c.Check(s.Fn.Root() == f, "R02.5", s.Fn.Name, "Message.ID written only by the generator", s.Node, "generator", "Message.ID is written outside msgIDGenerator.ID")
 		}
 	}
+	checkSingleIDGenerator(c)
 	c.Min["R02.1"] = 9
 	c.Min["R02.2"] = 12
 	c.Min["R02.3"] = 12
 	c.Min["R02.4"] = 4
 	c.Min["R02.5"] = 3
+}
+
+// R02.7: "one ID per message" needs one ID generator per instance: the seen cache, the tracers, the scorer and the
+// routers all hold the pointer stored in PubSub.idGen (it also caches the computed ID in the message). The field is
+// set once, in the constructor's composite literal or before the options run, and never replaced afterwards —
+// options configure the generator through its fields/methods. R01.5 (batch ownership: a queued batch entry is never
+// overwritten by a later AddToBatch) is re-evaluated here, since an overwritten entry is one ID delivered twice.
+func checkSingleIDGenerator(c *RuleCtx) {
+	p := c.P
+	n := 0
+	for _, s := range p.StoresTo("PubSub.idGen") {
+		if s.Kind != "assign" {
+			continue
+		}
+		n++
+		root := s.Fn.Root().Name
+		c.Check(root == "NewPubSub" && s.Fn.Parent == nil, "R02.7", root, "the instance's ID generator is never replaced", s.Node, "set by the constructor only", "PubSub.idGen is assigned outside the constructor body ("+s.Fn.Name+"): components created earlier (a tracer installed by an earlier option, the scorer, the router) keep the previous generator, so one message gets different IDs in the seen cache and in those components, and a copy with the same configured ID is validated and delivered again")
+	}
+	// the constructor's literal counts as the one creation
+	if f := p.Fn("NewPubSub"); f != nil {
+		ast.Inspect(f.Body, func(x ast.Node) bool {
+			if kv, ok := x.(*ast.KeyValueExpr); ok {
+				if id, ok := kv.Key.(*ast.Ident); ok && id.Name == "idGen" {
+					n++
+				}
+			}
+			return true
+		})
+	}
+	if n == 0 {
+		c.Undecided("R02.7", "PubSub.idGen", "creation", nil, "no creation of the ID generator found")
+	} else {
+		c.OK("R02.7", "NewPubSub", "the instance's ID generator is created once", nil, "constructor")
+	}
+	sub := &RuleCtx{P: c.P, Prop: c.Prop, Min: map[string]int{}}
+	runC01(sub)
+	for _, o := range sub.Obs {
+		if o.Rule == "R01.5" {
+			c.Obs = append(c.Obs, o)
+		}
+	}
+	c.Min["R02.7"] = 1
+	c.Min["R01.5"] = 1
 }
